@@ -27,7 +27,8 @@ Audit extensions (strata on top of the enumeration above):
                the end-of-data line, or as one single segment; HTTP keep-alive and HTTP pipelining.  The
                end-of-DATA reply is found by counting replies on the wire (ReplyTracker), not by feed timing.
     rejected   a validator refuses one RCPT: custody is owed to the accepted recipients only
-    shapes     write dies with gevent.Timeout / GreenletExit (BaseException, not Exception), QueueError + 421
+    shapes     write dies with gevent.Timeout / GreenletExit (BaseException, not Exception), QueueError + 421,
+               a SlimtaError of another family than QueueError (ConnectionLost)
     policies   a queue policy raises (before the split, or on the k-th envelope after it)
     relay      the Queue has a relay (attempts are spawned from enqueue), bounded or unbounded relay pool
     proxy      relay policies that raise, gevent.Timeout, non-dict Mapping / tuple results, every failing subset
@@ -77,7 +78,7 @@ LEVEL_TEXT = ('Real SmtpEdge / WsgiEdge in front of a real Queue (policy chains 
               'Relay. Fully enumerated: every recipient layout (1..3 recipients quick, 1..4 thorough, every '
               'set partition into <= 3 domains) x every failing write position (none, 1..n_produced, and every '
               'pair with mixed reply shapes) x every failure shape (QueueError, QueueError+451/552/421, '
-              'RuntimeError, gevent.Timeout, GreenletExit, write parked then ok, write parked then failing) x '
+              'RuntimeError, a library exception that is not a QueueError (ConnectionLost), gevent.Timeout, GreenletExit, write parked then ok, write parked then failing) x '
               'synchronous / yielding write x transport (SMTP on ScriptSocket, SMTP over a socketpair, WSGI app '
               'call, WSGI through gevent.pywsgi on loopback -- all four in both tiers); a queue policy raising '
               'before the split or on the k-th envelope after it; ProxyQueue: every relay result shape (None, '
@@ -144,7 +145,7 @@ EXHAUSTIVE = {'quick': True, 'thorough': True}
 WATCHDOG = 20.0     # generous real-time guard; firing only ever yields R.inconclusive
 
 CHAINS = ['none', 'split', 'domsplit', 'forward+split', 'date+split', 'domsplit+split']
-SHAPES = ['qerr', 'qerr451', 'qerr552', 'qerr421', 'runtime', 'timeout', 'killed', 'slow-ok', 'slow-fail']
+SHAPES = ['qerr', 'qerr451', 'qerr552', 'qerr421', 'runtime', 'liberr', 'timeout', 'killed', 'slow-ok', 'slow-fail']
 REPLY_OF = {'qerr451': '451', 'qerr552': '552', 'qerr421': '421'}
 PAIR_SHAPES = [('qerr451', 'qerr552'), ('qerr552', 'qerr451'), ('qerr', 'qerr552'), ('qerr552', 'runtime')]
 TRANSPORTS = {'quick': ['smtp-script', 'wsgi-app', 'smtp-socketpair', 'wsgi-server'],
@@ -427,6 +428,11 @@ class BoomPolicy(QueuePolicy):
 def make_fault(shape, what='storage backend'):
     if shape == 'runtime':
         return RuntimeError('injected: %s blew up' % what)
+    if shape == 'liberr':
+        # one of the library's own exceptions that is not a QueueError (a storage backend speaking SMTP/HTTP to its
+        # server may let one out): for the edge it is a failed write like any other (seed C02k)
+        from slimta.smtp import ConnectionLost
+        return ConnectionLost()
     if shape == 'timeout':
         return gevent.Timeout(None, 'injected: %s timed out' % what)
     if shape == 'killed':
